@@ -168,7 +168,9 @@ def aEvStart (float : Bool) (mem : UInt64) (op : String) (e : Ev) : Except Strin
   else
     let want := if isSubOp op then "U" else "A"
     let newv := if isSubOp op then mem - intDelta op else mem + intDelta op
-    guard (e.k == want && ordGe e.ord "Relaxed" && e.a == intDelta op && e.res == mem)
+    -- one read-modify-write: `fetch_add d` / `fetch_sub d`, or the other one with the wrapping negation of `d` (x - d = x + (-d))
+    let other := if isSubOp op then "A" else "U"
+    guard (((e.k == want && e.a == intDelta op) || (e.k == other && e.a == 0 - intDelta op)) && ordGe e.ord "Relaxed" && e.res == mem)
       s!"int {n}: expected {want} Relaxed {hexStr (intDelta op)} -> {hexStr mem} (or load Relaxed -> {hexStr mem})" (.ok (newv, .inr ""))
 
 /-- the compare-exchange of an add (float, or integer written as a loop) whose expected value is `cur`
